@@ -16,3 +16,10 @@ Theorem hyperparam_writes_only_alpha :
   forallb (fun f => forallb (fun w => String.eqb w "penalty.alpha") (object_attr_writes f)) functions = true.
 Proof. vm_compute. reflexivity. Qed.
 Print Assumptions hyperparam_writes_only_alpha.
+
+(* no instance is shared between fits: the only memoised function of the compilation helper is the one returning the
+   compiled CLASS; compiled_clone instantiates that class anew on every call; the module keeps no other state *)
+Theorem compiled_objects_are_fresh :
+  cached_functions = ["jit_cached_compile"%string] /\ compiled_clone_builds_fresh_instance = true /\ jit_module_state = [].
+Proof. vm_compute. repeat split; reflexivity. Qed.
+Print Assumptions compiled_objects_are_fresh.
